@@ -1,9 +1,11 @@
 SPECIFICATION SpecH
 CONSTANTS
-  Keys = {1, 2, 3}
+  Keys = {0, 1, 2}
   Vals = {1, 2}
   Default = 0
   MaxSize = 3
+  Ext = {}
+  RangeN = {}
   K = 4
 INVARIANTS TypeOK UniqueKeys Bounded LastAgrees AgreesWithHistory
 CONSTRAINT HistBound
